@@ -292,6 +292,27 @@ func (g *G) genPathSchema(path string) *Schema {
 		}
 		g.pathDefs[key] = true
 		s := g.scalar(pick(r, []string{"int", "str", "int", "float"}), true)
+		if len(g.enums) > 0 && chance(r, 1, 4) {
+			// a path variable constrained by a declared ENUM (string or number value)
+			e := pick(r, g.enums)
+			var vv []EnumValue
+			for _, v := range e.Values {
+				if v.Tok == "string" || v.Tok == "number" {
+					vv = append(vv, v)
+				}
+			}
+			if len(vv) > 0 {
+				v := pick(r, vv)
+				kind := "str"
+				if v.Tok == "number" {
+					kind = "int"
+					if strings.Contains(v.Lit, ".") {
+						kind = "float"
+					}
+				}
+				s = &Schema{Kind: kind, Lit: v.Lit, Str: v.SVal, Rules: []Rule{{"enum", e.Name, "reference", e.Name}}}
+			}
+		}
 		if chance(r, 1, 3) {
 			s.Note = genWords(r, 2)
 		}
